@@ -31,6 +31,21 @@ macro_rules! dim_cases {
             $ctx.case(&nm("mul_ews"), "generic", &vs, &|| (), &|x| $mk(&x[..n]).mul_element_wise(x[n]));
             $ctx.case(&nm("div_ews"), "generic", &vs, &|| (), &|x| $mk(&x[..n]).div_element_wise(x[n]));
             $ctx.case(&nm("rem_ews"), "generic", &vs, &|| (), &|x| $mk(&x[..n]).rem_element_wise(x[n]));
+            $ctx.case(&nm("add_assign"), "generic", two, &|| (), &|x| { let mut a = $mk(&x[..n]); a += $mk(&x[n..]); a });
+            $ctx.case(&nm("sub_assign"), "generic", two, &|| (), &|x| { let mut a = $mk(&x[..n]); a -= $mk(&x[n..]); a });
+            $ctx.case(&nm("mul_assign"), "generic", &vs, &|| (), &|x| { let mut a = $mk(&x[..n]); a *= x[n]; a });
+            $ctx.case(&nm("div_assign"), "generic", &vs, &|| (), &|x| { let mut a = $mk(&x[..n]); a /= x[n]; a });
+            $ctx.case(&nm("rem_assign"), "generic", &vs, &|| (), &|x| { let mut a = $mk(&x[..n]); a %= x[n]; a });
+            $ctx.case(&nm("add_assign_ew"), "generic", two, &|| (), &|x| { let mut a = $mk(&x[..n]); a.add_assign_element_wise($mk(&x[n..])); a });
+            $ctx.case(&nm("sub_assign_ew"), "generic", two, &|| (), &|x| { let mut a = $mk(&x[..n]); a.sub_assign_element_wise($mk(&x[n..])); a });
+            $ctx.case(&nm("mul_assign_ew"), "generic", two, &|| (), &|x| { let mut a = $mk(&x[..n]); a.mul_assign_element_wise($mk(&x[n..])); a });
+            $ctx.case(&nm("div_assign_ew"), "generic", two, &|| (), &|x| { let mut a = $mk(&x[..n]); a.div_assign_element_wise($mk(&x[n..])); a });
+            $ctx.case(&nm("rem_assign_ew"), "generic", two, &|| (), &|x| { let mut a = $mk(&x[..n]); a.rem_assign_element_wise($mk(&x[n..])); a });
+            $ctx.case(&nm("add_assign_ews"), "generic", &vs, &|| (), &|x| { let mut a = $mk(&x[..n]); a.add_assign_element_wise(x[n]); a });
+            $ctx.case(&nm("sub_assign_ews"), "generic", &vs, &|| (), &|x| { let mut a = $mk(&x[..n]); a.sub_assign_element_wise(x[n]); a });
+            $ctx.case(&nm("mul_assign_ews"), "generic", &vs, &|| (), &|x| { let mut a = $mk(&x[..n]); a.mul_assign_element_wise(x[n]); a });
+            $ctx.case(&nm("div_assign_ews"), "generic", &vs, &|| (), &|x| { let mut a = $mk(&x[..n]); a.div_assign_element_wise(x[n]); a });
+            $ctx.case(&nm("rem_assign_ews"), "generic", &vs, &|| (), &|x| { let mut a = $mk(&x[..n]); a.rem_assign_element_wise(x[n]); a });
             $ctx.case(&nm("sum"), "generic", one, &|| (), &|x| $mk(x).sum());
             $ctx.case(&nm("product"), "generic", one, &|| (), &|x| $mk(x).product());
             $ctx.case(&nm("from_value"), "generic", &i[..1], &|| (), &|x| $V::from_value(x[0]));
@@ -69,12 +84,56 @@ macro_rules! int_cases {
             $ctx.cases.push(Case { f: "z:v3_dot".into(), inp: q(&[0,1,2,4,5,6]), orc: Default::default(), out: o(vec![Vector3::new(t(0),t(1),t(2)).dot(Vector3::new(t(4),t(5),t(6)))]), tag: tag.into() });
             $ctx.cases.push(Case { f: "z:v4_sum".into(), inp: q(&[0,1,2,3]), orc: Default::default(), out: o(vec![a4.sum()]), tag: tag.into() });
             $ctx.cases.push(Case { f: "z:v3_mul_ew".into(), inp: q(&[0,1,2,4,5,6]), orc: Default::default(), out: { let r = Vector3::new(t(0),t(1),t(2)).mul_element_wise(Vector3::new(t(4),t(5),t(6))); o(vec![r.x, r.y, r.z]) }, tag: tag.into() });
+            $ctx.cases.push(Case { f: "z:v4_div_assign".into(), inp: q(&[0,1,2,3,8]), orc: Default::default(), out: { let mut r = a4; r /= s; o(vec![r.x, r.y, r.z, r.w]) }, tag: tag.into() });
+            $ctx.cases.push(Case { f: "z:v4_rem_assign".into(), inp: q(&[0,1,2,3,8]), orc: Default::default(), out: { let mut r = a4; r %= s; o(vec![r.x, r.y, r.z, r.w]) }, tag: tag.into() });
+            $ctx.cases.push(Case { f: "z:v4_mul_assign".into(), inp: q(&[0,1,2,3,8]), orc: Default::default(), out: { let mut r = Vector4::new(t(0), t(1), t(2), t(3)); r *= s; o(vec![r.x, r.y, r.z, r.w]) }, tag: tag.into() });
+            $ctx.cases.push(Case { f: "z:v4_add_assign".into(), inp: q(&[0,1,2,3,4,5,6,7]), orc: Default::default(), out: { let mut r = a4; r += b4; o(vec![r.x, r.y, r.z, r.w]) }, tag: tag.into() });
+            $ctx.cases.push(Case { f: "z:v3_div_assign".into(), inp: q(&[0,1,2,8]), orc: Default::default(), out: { let mut r = Vector3::new(t(0), t(1), t(2)); r /= s; o(vec![r.x, r.y, r.z]) }, tag: tag.into() });
+            $ctx.cases.push(Case { f: "z:v2_div_assign".into(), inp: q(&[0,1,8]), orc: Default::default(), out: { let mut r = Vector2::new(t(0), t(1)); r /= s; o(vec![r.x, r.y]) }, tag: tag.into() });
+            $ctx.cases.push(Case { f: "z:v1_div_assign".into(), inp: q(&[0,8]), orc: Default::default(), out: { let mut r = Vector1::new(t(0)); r /= s; o(vec![r.x]) }, tag: tag.into() });
+            $ctx.cases.push(Case { f: "z:v3_div_assign_ews".into(), inp: q(&[0,1,2,8]), orc: Default::default(), out: { let mut r = Vector3::new(t(0), t(1), t(2)); r.div_assign_element_wise(s); o(vec![r.x, r.y, r.z]) }, tag: tag.into() });
+            $ctx.cases.push(Case { f: "z:v3_div_assign_ew".into(), inp: q(&[4,5,6,0,1,2]), orc: Default::default(), out: { let mut r = Vector3::new(t(4), t(5), t(6)); r.div_assign_element_wise(Vector3::new(t(0), t(1), t(2))); o(vec![r.x, r.y, r.z]) }, tag: tag.into() });
             $ctx.cases.push(Case { f: "z:v2_mul_s".into(), inp: q(&[0,1,8]), orc: Default::default(), out: { let r = Vector2::new(t(0),t(1)) * s; o(vec![r.x, r.y]) }, tag: tag.into() });
         }
     }};
 }
 
+/// native floats on inputs for which every operation is exact (small integers, quotients exact),
+/// so that the Z instance of the model gives *the* expected result
+macro_rules! float_exact_cases {
+    ($ctx:ident, $T:ty) => {{
+        for _ in 0..8 * $ctx.scale {
+            let m = $ctx.small_ints(4, 60);
+            let d = $ctx.rng.range(3, 60) * if $ctx.rng.coin() { 1 } else { -1 };   // not a power of two in general
+            let num: Vec<i64> = m.iter().map(|k| k * d).collect();
+            let t = |k: usize| num[k] as $T;
+            let s = d as $T;
+            let mut qi: Vec<BigRat> = num.iter().map(|&v| BigRat::int(v as i128)).collect();
+            qi.push(BigRat::int(d as i128));
+            let o = |l: Vec<$T>| Out::Q(l.iter().map(|&v| BigRat::from_f64(v as f64)).collect());
+            let tag = stringify!($T);
+            let a4 = Vector4::new(t(0), t(1), t(2), t(3));
+            let mk = |f: &str, inp: Vec<BigRat>, out: Out| Case { f: format!("z:{}", f), inp, orc: Default::default(), out, tag: tag.into() };
+            $ctx.cases.push(mk("v4_div_s", qi.clone(), { let r = a4 / s; o(vec![r.x, r.y, r.z, r.w]) }));
+            $ctx.cases.push(mk("v4_div_assign", qi.clone(), { let mut r = a4; r /= s; o(vec![r.x, r.y, r.z, r.w]) }));
+            $ctx.cases.push(mk("v4_div_ews", qi.clone(), { let r = a4.div_element_wise(s); o(vec![r.x, r.y, r.z, r.w]) }));
+            $ctx.cases.push(mk("v4_div_assign_ews", qi.clone(), { let mut r = a4; r.div_assign_element_wise(s); o(vec![r.x, r.y, r.z, r.w]) }));
+            $ctx.cases.push(mk("v4_mul_s", qi.clone(), { let r = a4 * s; o(vec![r.x, r.y, r.z, r.w]) }));
+            $ctx.cases.push(mk("v4_mul_assign", qi.clone(), { let mut r = a4; r *= s; o(vec![r.x, r.y, r.z, r.w]) }));
+            let q3: Vec<BigRat> = vec![qi[0].clone(), qi[1].clone(), qi[2].clone(), qi[4].clone()];
+            $ctx.cases.push(mk("v3_div_assign", q3.clone(), { let mut r = Vector3::new(t(0), t(1), t(2)); r /= s; o(vec![r.x, r.y, r.z]) }));
+            $ctx.cases.push(mk("v3_div_s", q3, { let r = Vector3::new(t(0), t(1), t(2)) / s; o(vec![r.x, r.y, r.z]) }));
+            let q2: Vec<BigRat> = vec![qi[0].clone(), qi[1].clone(), qi[4].clone()];
+            $ctx.cases.push(mk("v2_div_assign", q2, { let mut r = Vector2::new(t(0), t(1)); r /= s; o(vec![r.x, r.y]) }));
+            let q1: Vec<BigRat> = vec![qi[0].clone(), qi[4].clone()];
+            $ctx.cases.push(mk("v1_div_assign", q1, { let mut r = Vector1::new(t(0)); r /= s; o(vec![r.x]) }));
+        }
+    }};
+}
+
 pub fn cases(ctx: &mut Ctx) {
+    float_exact_cases!(ctx, f64);
+    float_exact_cases!(ctx, f32);
     dim_cases!(ctx, 1, Vector1, v1, "v1");
     dim_cases!(ctx, 2, Vector2, v2, "v2");
     dim_cases!(ctx, 3, Vector3, v3, "v3");
